@@ -241,7 +241,7 @@ def _base(encrypted):
     return _BASE[encrypted]
 
 
-KINDS = ['flip', 'truncate', 'extend', 'swap', 'replay', 'delete']
+KINDS = ['flip', 'truncate', 'extend', 'swap', 'replay', 'delete', 'move']
 
 
 def corrupt_case(encrypted, obj_i, kind, p, use_cache=True):
@@ -269,6 +269,13 @@ def corrupt_case(encrypted, obj_i, kind, p, use_cache=True):
         objs[name] = objs[other]
     elif kind == 'delete':
         del objs[name]
+    elif kind == 'move':
+        # replay under another name AND removal (two damages in combination): same file name in another prefix directory,
+        # or the tag part respelled in upper case
+        head, _, last = name.rpartition('/')
+        top, _, sub = head.rpartition('/')
+        new = (top + '/' + ('ff' if sub != 'ff' else 'ee') + '/' + last) if p % 2 == 0 else (head + '/' + last.upper() if last.upper() != last else head + '/x' + last)
+        objs[new] = objs.pop(name)
     with world.scratch('c04') as d:
         be = rt.MemBackend(objs)
         cache = str(d / 'cache') if use_cache else None
@@ -282,7 +289,7 @@ def corrupt_case(encrypted, obj_i, kind, p, use_cache=True):
                 outcomes.append(('raised', type(e).__name__))
                 continue
             got = {'/' + k: v[0] for k, v in world.tree_state(out).items()}
-            if kind == 'delete' and name.startswith('snapshots/') and name.endswith('-' + newest) and got == {}:
+            if kind in ('delete', 'move') and name.startswith('snapshots/') and name.endswith('-' + newest) and got == {}:
                 outcomes.append(('nothing listed',))   # the snapshot object itself is gone: nothing to restore
                 continue
             if got != expect:
@@ -293,12 +300,14 @@ def corrupt_case(encrypted, obj_i, kind, p, use_cache=True):
 
 def e_corrupt(k: int) -> bool:
     """
-    pre: shard(2 * 16 * 6 * 40)[0] <= k < shard(2 * 16 * 6 * 40)[1]
+    pre: shard(2 * 16 * 7 * 40)[0] <= k < shard(2 * 16 * 7 * 40)[1]
     post: _
     """
-    enc, obj_i, kind, p = digits(k, [2, 16, 6, 40])
+    enc, obj_i, kind, p = digits(k, [2, 16, 7, 40])
     with NoTracing():
         if KINDS[kind] in ('delete',) and p > 0:
+            return True
+        if KINDS[kind] == 'move' and p > 1:
             return True
         if KINDS[kind] in ('swap', 'replay', 'extend') and p > 7:
             return True
